@@ -608,39 +608,46 @@ def n9(ctx, rep):
         if is_tn(a[1]):
             return a[1], a[0]
         return None, None
-    consumers = []
-    for g in ctx.astq['functions']:
-        if not g['file'].startswith('core/src/') or '#[test]' in ' '.join(g.get('attrs', [])) or 'test' in str(g.get('mod') or ''):
-            continue
-        names, globs = [], []
-        G = ctx.x(g)
-        blobs = [c for c in G['calls']] + [l.get('v') for l in G.get('lets', [])] + [G.get('tail')] + [r.get('v') for r in G.get('returns', [])] + [fr.get('c') for c in G['calls'] for fr in c.get('guard', []) if fr.get('k') == 'if']
-        def every(n, d=0):
-            if d > 80:
-                return
-            if isinstance(n, list):
-                for y in n:
+    def every(n, d=0):
+        if d > 80:
+            return
+        if isinstance(n, list):
+            for y in n:
+                yield from every(y, d + 1)
+        elif isinstance(n, dict):
+            yield n
+            for k_, y in n.items():
+                if k_ not in ('guard', 'ty') and isinstance(y, (dict, list)):
                     yield from every(y, d + 1)
-            elif isinstance(n, dict):
-                yield n
-                for k_, y in n.items():
-                    if k_ not in ('guard', 'ty') and isinstance(y, (dict, list)):
-                        yield from every(y, d + 1)
-        own = [c for c in g['calls']] + [l.get('v') for l in g.get('lets', [])] + [g.get('tail')] + [r.get('v') for r in g.get('returns', [])] + [fr.get('c') for c in g['calls'] for fr in c.get('guard', []) if fr.get('k') == 'if']
-        for src, is_own in ((own, True), (blobs, False)):
-            for x in every(src):
-                if isinstance(x, dict) and x.get('k') == 'op' and x.get('op') in ('==', '!='):
-                    tn, other = sides(x)
-                    if tn is None:
-                        continue
-                    o = vt.strip(other)
-                    if isinstance(o, dict) and o.get('k') == 'lit' and o.get('v') == '*':
-                        globs.append(x)            # judged on the inlined body: the clause may sit in a helper
-                    elif is_own and not (isinstance(o, dict) and o.get('k') == 'lit'):
-                        names.append(x)            # a consumer is the function that writes the comparison itself
-        if names and not g.get('nested_in'):
-            consumers.append((g, bool(globs)))
-    rep.floor('N9', 'consumers of the import set that select by type name', len(consumers), 3)
+
+    def clauses(G):
+        """(comparisons of type_name with a name, comparisons with the glob marker) written in the facts G"""
+        blobs = [c for c in G['calls']] + [l.get('v') for l in G.get('lets', [])] + [G.get('tail')] + [r.get('v') for r in G.get('returns', [])] \
+            + [fr.get('c') for c in G['calls'] for fr in c.get('guard', []) if fr.get('k') == 'if'] + [fr.get('guard') for c in G['calls'] for fr in c.get('guard', []) if fr.get('k') == 'arm' and fr.get('guard') is not None] \
+            + [a.get('guard') for m in G.get('matches', []) for a in m.get('arms', []) if a.get('guard') is not None] + [l.get('over') for l in G.get('loops', [])]
+        names, globs = [], []
+        for x in every(blobs):
+            if isinstance(x, dict) and x.get('k') == 'op' and x.get('op') in ('==', '!='):
+                tn, other = sides(x)
+                if tn is None:
+                    continue
+                if any(y.get('k') == 'lit' and y.get('v') == '*' for y in every(other)):
+                    globs.append(x)           # the marker itself, or a constant holding it
+                elif not (isinstance(vt.strip(other), dict) and vt.strip(other).get('k') == 'lit'):
+                    names.append(x)
+        return names, globs
+    cands = [g for g in ctx.astq['functions'] if g['file'].startswith('core/src/') and '#[test]' not in ' '.join(g.get('attrs', [])) and 'test' not in str(g.get('mod') or '') and not g.get('nested_in')]
+    views = {g['qual'] + '@' + g['file']: ctx.x(g) for g in cands}
+    consumers = []
+    for g in cands:
+        names, _ = clauses(g)
+        if not names:
+            continue
+        nm = g['name'].split('::')[-1]
+        # the glob clause may sit in the consumer itself, in a helper it calls, or in the caller that hands it the import set
+        aware = bool(clauses(views[g['qual'] + '@' + g['file']])[1]) or any(bool(clauses(V)[1]) for k_, V in views.items() if any(str(q).split('::')[-1] == nm for q in V.get('inlined', [])))
+        consumers.append((g, aware))
+    rep.floor('N9', 'consumers of the import set that select by type name', len(consumers), 2)
     for g, aware in consumers:
         rep.check(aware, 'N9', f"{g['file'].split('/')[-1]}:glob-imports-consulted", 'also tests the glob marker "*"',
                   f"{g['qual']} selects imports with `type_name == <name>` only and never looks at the glob marker \"*\" the visitor records for `use other::*` (its siblings do): a type reached through a glob import counts as not imported — "
